@@ -243,3 +243,92 @@ def _find(self, k):
 
 
 SDict._find = _find
+
+
+# ----------------------------------------------------------------------------- set shadow (seeded as `set` where the
+# repository code builds sets of possibly-symbolic elements): membership by equality scan, no hashing
+class SSet:
+    """Minimal set: unique elements by pairwise equality (each comparison is a recorded branch)."""
+
+    def __init__(self, items=()):
+        self._items = []
+        for x in items:
+            self.add(x)
+
+    @staticmethod
+    def _eq(a, b):
+        if any_sym(a) or any_sym(b):
+            try:
+                if any_sym(a):
+                    return bool(_key_eq(a, b)) if _same_key_kind(a, b) else False
+                return bool(_key_eq(b, a)) if _same_key_kind(a, b) else False
+            except TypeError:
+                return False
+        try:
+            return hash(a) == hash(b) and bool(a == b)
+        except TypeError:
+            return False
+
+    def add(self, x):
+        if not any_sym(x):
+            hash(x)  # unhashable elements raise TypeError like the builtin
+        if not any(self._eq(x, y) for y in self._items):
+            self._items.append(x)
+
+    def __contains__(self, x):
+        return any(self._eq(x, y) for y in self._items)
+
+    def __iter__(self):
+        return iter(list(self._items))
+
+    def __len__(self):
+        return len(self._items)
+
+    def __bool__(self):
+        return bool(self._items)
+
+    def __sub__(self, o):
+        o = o if isinstance(o, SSet) else SSet(o)
+        return SSet([x for x in self._items if x not in o])
+
+    def __and__(self, o):
+        o = o if isinstance(o, SSet) else SSet(o)
+        return SSet([x for x in self._items if x in o])
+
+    def __or__(self, o):
+        return SSet(list(self._items) + list(o))
+
+    def __xor__(self, o):
+        o = o if isinstance(o, SSet) else SSet(o)
+        return (self - o) | (o - self)
+
+    def __eq__(self, o):
+        if not isinstance(o, (SSet, set, frozenset)):
+            return NotImplemented
+        o = o if isinstance(o, SSet) else SSet(o)
+        return len(self) == len(o) and all(x in o for x in self._items)
+
+    def __le__(self, o):
+        o = o if isinstance(o, SSet) else SSet(o)
+        return all(x in o for x in self._items)
+
+    def issubset(self, o):
+        return self.__le__(o)
+
+    def union(self, *os):
+        r = SSet(self._items)
+        for o in os:
+            for x in o:
+                r.add(x)
+        return r
+
+    def intersection(self, o):
+        return self & o
+
+    def difference(self, o):
+        return self - o
+
+    def __repr__(self):
+        return "SSet(" + repr(self._items) + ")"
+
+    __hash__ = None
